@@ -1,8 +1,82 @@
 import SLModel.Drv.Util
+import SLModel.Drv.Doc
+import SLModel.Core.Filter
 open Lean
 namespace SL.Drv.C08
+open SL.Drv SL.Drv.DocJ SL.Doc SL.Filter
 
-/-- stub: no model operations for C08 yet -/
-def handle (_req : Json) : Except String Json := .error "C08: not implemented"
+/-- `char::to_lowercase` for the letters the generators use: ASCII, Latin-1, basic Greek and
+Cyrillic capitals (no special-casing rules are needed for these) -/
+def lowerChar (c : Char) : Char :=
+  let n := c.toNat
+  if 65 ≤ n && n ≤ 90 then Char.ofNat (n + 32)
+  else if 0xC0 ≤ n && n ≤ 0xDE && n != 0xD7 then Char.ofNat (n + 32)
+  else if 0x391 ≤ n && n ≤ 0x3A9 && n != 0x3A2 then Char.ofNat (n + 32)
+  else if 0x410 ≤ n && n ≤ 0x42F then Char.ofNat (n + 32)
+  else c
+
+/-- case folding of `case_insensitive_equals` (`eq_ignore_ascii_case` / `to_lowercase`) -/
+def fold (s : String) : String := String.ofList (s.toList.map lowerChar)
+
+def numOf (j : Json) : Except String (Int × Nat) :=
+  match j with
+  | .num n => .ok (n.mantissa, n.exponent)
+  | _ => .error "number expected"
+
+/-- the repository's `Filter` JSON (externally tagged enum); dotted field names are split -/
+partial def filterOf (j : Json) : Except String (Filter String) := do
+  match j.getObjVal? "KeywordEq" with
+  | .ok b => return .leaf ((← getStr b "field").splitOn ".") (.kwEq (← getStr b "value"))
+  | .error _ =>
+  match j.getObjVal? "KeywordIn" with
+  | .ok b =>
+    let vs ← (← getArr b "values").toList.mapM (·.getStr?)
+    return .leaf ((← getStr b "field").splitOn ".") (.kwIn vs)
+  | .error _ =>
+  match j.getObjVal? "I64Range" with
+  | .ok b =>
+    return .leaf ((← getStr b "field").splitOn ".") (.i64Range (← getInt b "min") (← getInt b "max"))
+  | .error _ =>
+  match j.getObjVal? "F64Range" with
+  | .ok b =>
+    let lo ← numOf (← b.getObjVal? "min")
+    let hi ← numOf (← b.getObjVal? "max")
+    return .leaf ((← getStr b "field").splitOn ".") (.f64Range lo hi)
+  | .error _ =>
+  match j.getObjVal? "Nested" with
+  | .ok b => return .nested (← getStr b "path") (← filterOf (← b.getObjVal? "filter"))
+  | .error _ =>
+  match j.getObjVal? "And" with
+  | .ok b => return .and (← (← b.getArr?).toList.mapM filterOf)
+  | .error _ =>
+  match j.getObjVal? "Or" with
+  | .ok b => return .or (← (← b.getArr?).toList.mapM filterOf)
+  | .error _ =>
+  match j.getObjVal? "Not" with
+  | .ok b => return .not (← filterOf b)
+  | .error _ => throw s!"C08: unknown filter {j.compress}"
+
+def objOf (j : Json) : JO String :=
+  match toJ j with
+  | .obj kv => kv
+  | _ => .nil
+
+/-- `{"op":"eval","schema":…,"docs":[…],"filter":…}` →
+`{"col":[b…],"spec":[b…],"single":[b…],"plain":b}` — per document: the code's evaluation over
+the flattened columns, the documented tree semantics, and the hypothesis of the partial theorem -/
+def handle (req : Json) : Except String Json := do
+  let op ← getStr req "op"
+  match op with
+  | "eval" =>
+    let s := schemaOf (← req.getObjVal? "schema")
+    let f ← filterOf (← req.getObjVal? "filter")
+    let docs := (← getArr req "docs").toList.map objOf
+    let bools (l : List Bool) : Json := Json.arr (l.map (fun (b : Bool) => (b : Json))).toArray
+    return Json.mkObj [
+      ("col", bools (docs.map (fun kv => Col.passes fold (flatten s kv) f))),
+      ("spec", bools (docs.map (fun kv => Spec.passes fold s kv f))),
+      ("single", bools (docs.map (fun kv => singleCarrier s kv))),
+      ("plain", f.allPlain)]
+  | _ => throw s!"C08: unknown op {op}"
 
 end SL.Drv.C08
